@@ -77,6 +77,11 @@ CLAIMS["C02"] = dict(
    text="Decides the Python-visible necessary conditions of interoperability: every cipher module's MODE_* numbers and the numeric dispatch agree with the documented table; key/nonce/IV/segment domains are exact (incl. 3DES degenerate keys up to parity); CCM's B0 and associated-data length header (at the 2^16-2^8 and 2^32 thresholds), GCM's J0/inc32/tag-mask counter blocks for every IV length class, SIV's counter mask are the standards' values; the default nonce lengths and the identity of exposed and used nonce. Cipher tables and the C mode loops are the E-C part. Ciphertext equality for all inputs is not decided.",
    note="Formatting references (SP 800-38C A.2, SP 800-38D 7.1, RFC 5297) are written in vstat/props/c02_extra.py.")
 
+CLAIMS["C19"] = dict(
+   technique="lock-region analysis of the shared curve registry (lexical `with lock` regions closed under the intra-class call graph); scan of all FFI call sites for class-/module-level buffers; copy-independence decided by abstract interpretation of every copy() (identity of native state, nested objects and mutable containers in the clone); syntactic effect rules for operators",
+   text="Decides the structural reasons why distinct objects cannot interfere: the lazily initialised curve registry is read, loaded, updated and decorated only inside one re-entrant critical section; no buffer shared between objects is handed to native code (which runs without the GIL); every copy() yields a new object with its own native state (copied from self in the right direction, result checked), its own nested stateful objects and its own mutable containers; point operators work on copies. The C-side half (no writable statics, read-only contexts, per-object scratch, whole-state *_copy) is the E-C part. Concurrent use of one object is outside the property.",
+   note="Reviewed exceptions are listed with a reason in vstat/props/c19_extra.py (CMAC._ecb and _cipher_params are only read).")
+
 NOT_YET = {}
 
 ALL = ["C%02d" % i for i in range(1, 21)]
